@@ -538,6 +538,72 @@ def run_req_batch(ctx, impl, model, cases):
         oracle(ctx, c, a)
 
 
+def seq_cases(rng, n):
+    """sequences of requests through ONE HostFilterLayer: the decision for a request must not depend on what the layer saw before
+    (an admitted request followed by the same Host with a disagreeing / allow-listed / unparsable URI authority, the same URI
+    with another Host, exact repeats, ...)"""
+    out = []
+    while len(out) < n:
+        c0 = gen_case(rng)
+        if c0["filter"] is None:
+            continue
+        reqs = [(c0["hosts"], c0["uri"])]
+        pool = [gen_case(rng) for _ in range(3)]
+        evil = [b"evil.com", b"evil.com:80", b"evil.com/x", b"[::1]", b""]
+        for _ in range(rng.choice([2, 3, 4, 6])):
+            r = rng.random()
+            h0, u0 = rng.choice(reqs)
+            if r < 0.2:
+                reqs.append((h0, u0))                                            # exact repeat
+            elif r < 0.45:
+                reqs.append((h0, b"http://" + rng.choice(evil[:2]) + b"/"))      # same Host, another authority in the request-target
+            elif r < 0.6:
+                a = h0[0] if h0 else b"example.com"
+                reqs.append(([rng.choice(evil)], b"http://" + a + b"/"))         # another/unparsable Host, the admitted authority in the URI
+            elif r < 0.75:
+                reqs.append(([rng.choice(evil)], None))                          # that Host alone
+            elif r < 0.85:
+                reqs.append((h0, None))
+            else:
+                q = rng.choice(pool)
+                reqs.append((q["hosts"], q["uri"]))
+        out.append({"filter": c0["filter"], "reqs": reqs})
+    return out
+
+
+def run_seq_batch(ctx, impl, model, seqs):
+    def item(h, u):
+        return "%s|%s" % (L(h), hx(u) if u is not None else "-")
+    lines = ["seq %s %s" % (L(q["filter"]), " ".join(item(h, u) for h, u in q["reqs"])) for q in seqs]
+    ri = vlib.run_lines([impl], lines)
+    # every request alone on a fresh layer: implementation (for the oracle) and model (for the diff)
+    singles = sorted({line_of({"filter": q["filter"], "hosts": h, "uri": u}) for q in seqs for h, u in q["reqs"]})
+    alone_i = dict(zip(singles, vlib.run_lines([impl], singles)))
+    alone_m = dict(zip(singles, vlib.run_lines([model], singles)))
+    short = lambda r: " ".join(r.split(" ")[:2]) if r[:1].isdigit() else r
+    for q, line, a in zip(seqs, lines, ri):
+        ctx.count("sequence-on-one-layer")
+        case = {"filter": [e.decode("latin1") for e in q["filter"]],
+                "requests": [{"hosts": [x.decode("latin1") for x in h], "uri": None if u is None else u.decode("latin1")} for h, u in q["reqs"]], "line": line}
+        parts = a.split(";") if a not in ("nostr", "badlist") and not a.startswith("?") else None
+        ctx.record(case, a, nontrivial=bool(parts) and any(p.startswith("200") for p in parts))
+        if a.startswith(("PANIC", "CRASH", "?")):
+            ctx.fail("oracle", "hostfilter-panic", case, a)
+            continue
+        if parts is None:
+            continue
+        keys = [line_of({"filter": q["filter"], "hosts": h, "uri": u}) for h, u in q["reqs"]]
+        want_i = [short(alone_i[k]) for k in keys]
+        want_m = [short(alone_m[k]) for k in keys]
+        if parts != want_m:
+            ctx.fail("diff", "hostfilter-model-differs:seq", case, {"impl": a, "model": ";".join(want_m)})
+        for j, (got, want) in enumerate(zip(parts, want_i)):
+            if got != want:
+                ctx.fail("oracle", "decision-depends-on-earlier-requests", case,
+                         "request %d answered `%s` after the earlier requests of the sequence, `%s` on a fresh layer" % (j, got, want))
+                break
+
+
 BATCH = 200000
 
 
@@ -566,11 +632,25 @@ def run(ctx):
         k = min(n, BATCH)
         run_req_batch(ctx, impl, model, [gen_case(rng) for _ in range(k)])
         n -= k
+    # ---- (3) sequences of requests through one layer (in the model the decision is a function of allow-list and request alone; this family checks the same of the implementation)
+    run_seq_batch(ctx, impl, model, seq_cases(rng, ctx.scale(3000, 60000)))
 
 
 def replay(payload):
     case = payload["case"]
     print(json.dumps(payload, indent=1)[:3000])
+    if isinstance(case, dict) and case.get("line", "").startswith("seq "):
+        # one layer, the requests in order (implementation) vs every request alone (implementation and model)
+        toks = case["line"].split()
+        rc, out = vlib.sh([vlib.rust_bin("hostfilter")], input=case["line"] + "\n")
+        print("impl, one layer ->", out.strip())
+        for it in toks[2:]:
+            h, _, u = it.partition("|")
+            single = "req %s %s %s" % (toks[1], h, u or "-")
+            for name, cmd in (("impl alone ", vlib.rust_bin("hostfilter")), ("model alone", vlib.model_bin("hostfilter"))):
+                rc, out = vlib.sh([cmd], input=single + "\n")
+                print("  ", name, it[:60], "->", out.strip())
+        return 0
     if isinstance(case, dict) and "line" in case and not case["line"].endswith("bytes>"):
         for name, cmd in (("impl", vlib.rust_bin("hostfilter")), ("model", vlib.model_bin("hostfilter"))):
             rc, out = vlib.sh([cmd], input=case["line"] + "\n")
